@@ -578,6 +578,64 @@ fn cross_thread<C: Cs>(ctx: &Ctx, idx: u64) {
     ctx.sample(json!({"workload":"cross-thread","threads":threads,"proofs":proofs.len(),"transcript_pairs":pairs}));
 }
 
+/// The range proof is generic over the hash. With a digest longer than 2t bits (a user-defined suite with SHA-512) the
+/// blindings must still cover challenge * witness: the size channel over candidate values, on bare range proofs.
+fn size_channel_range_proof<C: Cs, H: sha2::Digest>(ctx: &Ctx, idx: u64, hash_name: &str) {
+    use std::collections::BTreeMap;
+    use zkryptium::cl03::commitment::CL03Commitment;
+    use zkryptium::cl03::range_proof::Boudot2000RangeProof as Rp;
+    let mut r = ctx.rng("c17h", idx);
+    let Some(st) = Setup::<C>::new(ctx, 1) else {
+        ctx.inconclusive("C17: key generation panicked (C18's business)");
+        return;
+    };
+    let (g, h, n) = (st.cpk.g_bases[0].clone(), st.cpk.h.clone(), st.cpk.N.clone());
+    let (lo, hi) = (Integer::from(0), (Integer::from(1) << C::lm) - 1u32);
+    let candidates: Vec<(&str, Integer)> = vec![
+        ("0", Integer::from(0)), ("18", Integer::from(18)), ("2^65", Integer::from(1) << 65u32),
+        ("2^128+1", (Integer::from(1) << 128u32) + 1u32), ("2^lm-1", hi.clone()),
+    ];
+    let per = ctx.t(4usize, 12usize);
+    let mut seen: BTreeMap<String, BTreeMap<String, (u32, u32)>> = BTreeMap::new();
+    for (cn, x) in &candidates {
+        for _ in 0..per {
+            let rr = rand_int_bits(&mut r, C::ln);
+            let c = CL03Commitment { value: mulm(&powm(&g, x, &n), &powm(&h, &rr, &n), &n), randomness: rr };
+            let case = format!("{}/size-channel/range-proof/{}/candidate={}", C::NAME, hash_name, cn);
+            ctx.distinct(&case);
+            let Some(p) = ctx.call("Boudot::prove", &case, None, || Ok::<_, ()>(Rp::prove::<H>(x, &c, &g, &h, &n, &lo, &hi))).value else {
+                ctx.count("range_proof_generation_failed", 1);
+                continue;
+            };
+            if ctx.call("Boudot::verify", &case, None, || Ok::<_, ()>(p.verify::<H>(&g, &h, &n, &lo, &hi))).value != Some(true) {
+                ctx.count("range_proof_rejected(C16's business)", 1);
+            }
+            for (path, v) in leaves(&serde_json::to_value(&p).unwrap()) {
+                let e = seen.entry(path).or_default().entry(cn.to_string()).or_insert((u32::MAX, 0));
+                let b = v.significant_bits();
+                e.0 = e.0.min(b);
+                e.1 = e.1.max(b);
+            }
+            ctx.count("size_channel_range_proofs", 1);
+        }
+    }
+    for (path, by_cand) in &seen {
+        let v: Vec<(&String, &(u32, u32))> = by_cand.iter().collect();
+        for i in 0..v.len() {
+            for k in i + 1..v.len() {
+                let (a, b) = (v[i].1, v[k].1);
+                let gap = if a.1 < b.0 { b.0 - a.1 } else if b.1 < a.0 { a.0 - b.1 } else { 0 };
+                if gap >= 12 {
+                    ctx.violation(
+                        &format!("C17:range-proof[{}]:field-length-identifies-candidate/{}", hash_name, path_class(path)),
+                        json!({"field":path,"hash":hash_name,"candidate_a":v[i].0,"bits_a":[a.0,a.1],"candidate_b":v[k].0,"bits_b":[b.0,b.1]}),
+                    );
+                }
+            }
+        }
+    }
+}
+
 fn run<C: Cs>(ctx: &Ctx, idx: u64, nmax: usize) {
     let mut r = ctx.rng("c17", idx);
     let Some(st) = Setup::<C>::new(ctx, nmax) else {
@@ -608,6 +666,9 @@ pub fn scenarios(ctx: &Ctx) -> Vec<Scenario> {
     for i in 0..ctx.t(1u64, 4u64) {
         v.push(scenario("CL1024/cross-thread", move |c| cross_thread::<CL1024Sha256>(c, 600 + i)));
     }
+    v.push(scenario("CL1024/size-channel/range-proof/sha256", move |c| size_channel_range_proof::<CL1024Sha256, sha2::Sha256>(c, 650, "SHA-256")));
+    v.push(scenario("CL1024/size-channel/range-proof/sha512", move |c| size_channel_range_proof::<CL1024Sha256, sha2::Sha512>(c, 651, "SHA-512")));
+    v.push(scenario("CL1024/size-channel/range-proof/sha384", move |c| size_channel_range_proof::<CL1024Sha256, sha2::Sha384>(c, 652, "SHA-384")));
     // many attributes, hidden positions deep in the vector
     let quick = ctx.quick();
     v.push(scenario("CL1024/large-n", move |c| {
